@@ -430,6 +430,7 @@ func extractC20() *lean {
 	}
 	l.def("maxRedirectsConst", "Option Nat", maxR, maxR)
 	c20ResponseCap(l, cl)
+	c20Sources(l)
 
 	// registered server flags
 	var flags []string
